@@ -125,7 +125,7 @@ def check(rep: Report, ctx: Ctx) -> None:
                   f"{sorted(w.split(':')[-1] for w in writers)}")
 
     # ---- R10.3 ---------------------------------------------------------------
-    rep.rule("R10.3", "recovery handler", 4)
+    rep.rule("R10.3", "recovery handler", 5)
     tries = [t for t in ast.walk(wrapper.node) if isinstance(t, ast.Try)]
     raw_calls = calls_in(ctx, wrapper, raw)
     ok_try = len(tries) == 1 and len(raw_calls) == 1 and any(
@@ -147,6 +147,23 @@ def check(rep: Report, ctx: Ctx) -> None:
                                               "BaseException", ""})
             if calls_filter and catches_integrity:
                 recovers = True
+            if calls_filter:
+                # the filter drops every pending span whose id is stored,
+                # *together with its links*: sound only when the failure was
+                # the unique key firing at the span insert (which rolled the
+                # spans of this batch back).  After any other failure (a
+                # transient OperationalError at the link insert, when the
+                # spans are already committed) it drops the links for good.
+                rep.ob("R10.3", "the duplicate filter is entered only for an "
+                       "IntegrityError", names == {"IntegrityError"},
+                       fi=wrapper, node=h,
+                       detail=f"handler catches ({', '.join(sorted(names)) or 'everything'}) "
+                              "and calls the filter routine"
+                       + ("" if names == {"IntegrityError"} else
+                          ": for a failure after the spans were committed "
+                          "the filter finds every span stored, removes them "
+                          "and their links from the batch, and the links are "
+                          "never written"))
             rep.ob("R10.3", f"handler ({', '.join(sorted(names)) or 'bare'}) "
                    "recovers or re-raises", calls_filter or reraises,
                    fi=wrapper, node=h,
@@ -595,9 +612,15 @@ def _filter(rep: Report, ctx: Ctx, filt: FuncInfo, raw: FuncInfo) -> None:
         s.where[0], S.In) and not s.where[0].negated and s.where[0].col.nf() \
         == "nodes.event_id" and isinstance(s.where[0].what, S.Param) \
         and s.where[0].what.text == q.params()[1] and s.window is None
+    detail = s.nf()[:160] if s is not None else "<no read>"
+    if not ok and isinstance(s, S.Select) and [c.nf() for c in s.cols] == [
+            "nodes.event_id"] and len(s.where) == 1 and isinstance(
+            s.where[0], S.In) and not s.where[0].negated and \
+            s.where[0].col.nf() == "nodes.event_id" and s.window is None:
+        ok, detail = _chunked_lookup(ctx, q)
     rep.ob("R10.6", "the lookup returns exactly the given ids that are "
            "stored", ok, fi=q, node=reads[0].node if reads else q.node,
-           detail=s.nf()[:160] if s is not None else "<no read>")
+           detail=detail)
     existing = None
     asg = enclosing(filt.node, ex[0], (ast.Assign,))
     if asg and isinstance(asg[-1].targets[0], ast.Name):
@@ -709,3 +732,46 @@ def _filter_dict_survivors(rep: Report, ctx: Ctx, filt: FuncInfo,
         raise AnalysisError(f"{filt.qualname}: dict-based duplicate filter "
                             "recognised as first-wins; the remaining "
                             "skeleton of R10.6 is outside the vocabulary")
+
+
+def _chunked_lookup(ctx: Ctx, q: FuncInfo) -> tuple[bool, str]:
+    """The id lookup split into chunks (to stay below the bound-parameter
+    limit): sound iff the chunks tile the given ids -- slice
+    ``ids[a:a + N]`` for ``a`` over ``range(0, len(ids), N)`` with one N --
+    and the result is the union over every chunk."""
+    import re
+    from ..roles import Roles
+    R = Roles(ctx, q)
+    p = q.params()[1]
+    ins = [c for c in ast.walk(q.node) if isinstance(c, ast.Call)
+           and isinstance(c.func, ast.Attribute) and c.func.attr == "in_"
+           and len(c.args) == 1]
+    if len(ins) != 1:
+        return False, f"{len(ins)} in_() filters"
+    role = R.of(ins[0].args[0], ins[0])
+    src = rf"(?:list|tuple|sorted)\(P:{p}\)|P:{p}"
+    m = re.match(rf"^(?P<x>{src})\[(?P<a>each\(range\(0,len\((?P<x2>{src})\),"
+                 rf"(?P<n>[^,()]+)\)\)):\((?P<a2>each\(range\(0,len\((?:{src})\),"
+                 rf"[^,()]+\)\)) Add (?P<n2>[^,()]+)\)\]$", role)
+    if not m or m.group("x") != m.group("x2") or m.group("a") != \
+            m.group("a2") or m.group("n") != m.group("n2"):
+        return False, (f"ids looked up: {role[:200]} -- neither the given "
+                       "ids nor slices ids[a:a+N] for a in range(0, len(ids),"
+                       " N) that tile them")
+    # the result is the union over every chunk
+    rets = [r for r in ast.walk(q.node) if isinstance(r, ast.Return)
+            and r.value is not None]
+    if len(rets) != 1 or not isinstance(rets[0].value, ast.Name):
+        return False, "chunked lookup does not return one accumulated set"
+    acc = rets[0].value.id
+    ups = [c for c in ast.walk(q.node) if isinstance(c, ast.Call)
+           and isinstance(c.func, ast.Attribute) and c.func.attr == "update"
+           and isinstance(c.func.value, ast.Name) and c.func.value.id == acc]
+    if len(ups) != 1 or len(ups[0].args) != 1:
+        return False, f"{len(ups)} update(s) of the returned set '{acc}'"
+    ur = R.of(ups[0].args[0], ups[0])
+    gs = R.guards(ups[0])
+    ok = re.match(r"^[\(\[\{]str\(each\(.*\.all\(\)\)\[0\]\) for\.\.[\)\]\}]$",
+                  ur) is not None and f".in_({role})" in ur and not gs
+    return ok, (f"chunks {role[:120]}; union of every chunk: "
+                f"{acc}.update({ur[:80]}) when {gs or 'always'}")
